@@ -14,14 +14,46 @@ class VerifSubKey(Key):
     """a user-defined registered type derived from a registered type (module level: picklable)"""
 
 
+class VerifSubExit(Exit):
+    """a user-defined exit (module level: picklable)"""
+
+
+def _plain_type(name):
+    """a user-defined, colourless one-state cell type (module-level name: picklable)"""
+    from gym_gridverse.grid_object import Color, GridObject
+
+    def can_be_represented_in_state(cls):
+        return True
+
+    def num_states(cls):
+        return 1
+
+    def __repr__(self):
+        return f'{name}()'
+
+    cls = type(GridObject)(name, (GridObject,), {
+        '__module__': __name__, '__qualname__': name, 'state_index': 0, 'color': Color.NONE, 'blocks_movement': False,
+        'blocks_vision': False, 'holdable': True, 'can_be_represented_in_state': classmethod(can_be_represented_in_state),
+        'num_states': classmethod(num_states), '__repr__': __repr__})
+    return cls
+
+
+PLAIN_NAMES = [f'VerifPlain{i}' for i in range(8)]
+for _n in PLAIN_NAMES:
+    globals()[_n] = _plain_type(_n)
+
 from .desc import EXTRA_TYPES  # noqa: E402
 
-EXTRA_TYPES['VerifSubKey'] = VerifSubKey
+for _n in PLAIN_NAMES:
+    EXTRA_TYPES[_n] = (lambda cls: (lambda colour: cls()))(globals()[_n])
 
-TYPES = {'VerifSubKey': VerifSubKey, 'Hidden': Hidden, 'NoneGridObject': NoneGridObject, 'Floor': Floor, 'Wall': Wall, 'Exit': Exit, 'Door': Door, 'Key': Key, 'MovingObstacle': MovingObstacle,
+EXTRA_TYPES['VerifSubKey'] = VerifSubKey
+EXTRA_TYPES['VerifSubExit'] = VerifSubExit
+
+TYPES = {**{_n: globals()[_n] for _n in PLAIN_NAMES}, 'VerifSubExit': VerifSubExit, 'VerifSubKey': VerifSubKey, 'Hidden': Hidden, 'NoneGridObject': NoneGridObject, 'Floor': Floor, 'Wall': Wall, 'Exit': Exit, 'Door': Door, 'Key': Key, 'MovingObstacle': MovingObstacle,
          'Box': Box, 'Telepod': Telepod, 'Beacon': Beacon}
-TYPE_ORDER = [t for t in TYPES if t not in ('Hidden', 'NoneGridObject', 'VerifSubKey')]
-COLOURED = ('Exit', 'Door', 'Key', 'Telepod', 'Beacon', 'VerifSubKey')
+TYPE_ORDER = [t for t in TYPES if t not in ('Hidden', 'NoneGridObject', 'VerifSubKey', 'VerifSubExit') and not t.startswith('VerifPlain')]
+COLOURED = ('Exit', 'Door', 'Key', 'Telepod', 'Beacon', 'VerifSubKey', 'VerifSubExit')
 REPS = ['default', 'no-overlap', 'compact']
 SHIPPED_TYPE_SETS = [
     ('Wall', 'Floor', 'Exit'),
@@ -103,6 +135,12 @@ def obs_members(shape, objs, devs=1):
     """member observations as observation functions produce them: agent at the bottom-centre anchor facing FORWARD"""
     H, W = shape
     ay, ax = H - 1, W // 2
+    if not objs:
+        # a space that declares no cell types of its own: everything is Hidden, the hand is empty
+        for y in range(H):
+            for x in range(W):
+                yield (fill(shape, HIDDEN), y, x, 'F', NONE)
+        return
     gobjs = objs + [HIDDEN]
     base = fill(shape, objs[0])
     cells = [(y, x) for y in range(H) for x in range(W)]
